@@ -96,9 +96,10 @@ Obs(s) == [grid |-> s.grid, blocks |-> s.blocks, action_mask |-> Mask(s)]
 
 (* ---------- feasibility of the partial packing (C06), recomputed from the raw arrays ---------- *)
 CellsWithValue(g, v) == { p \in AllCells : g[p[1]][p[2]] = v }
-\* the cells carrying block b's number are one complete rotated, translated copy of block b lying inside the grid
 MinOf(S) == CHOOSE x \in S : \A y \in S : x <= y
-IntactCopy(s, b) ==     \* (if a translation exists it is the one that aligns the top-left corners of the bounding boxes)
+\* the cells carrying block b's number are one complete rotated, translated copy of block b lying inside the grid
+\* (if a translation exists it is the one that aligns the top-left corners of the two bounding boxes)
+IntactCopy(s, b) ==
   LET cs == CellsWithValue(s.grid, BlockValue(s.blocks[b])) IN
   /\ cs # {}
   /\ \E k \in 0..3 :
